@@ -165,7 +165,7 @@ def gen_history(tier, seed):
                 continue
             elif roll < 0.92:
                 k = r.random()
-                verb = r.choice(["setvalues ${a}", "setitem ${a} E"]).replace("${a}", f"${a}")
+                verb = r.choice(["setvalues ${a}", "setitem ${a} E", "setitem ${a} K:", "setitem ${a} T:"]).replace("${a}", f"${a}")
                 if k < 0.35:
                     lines.append(f"{verb} nd:{shape(la)}:{vals(size(la)).replace(' ', ',')}")
                 elif k < 0.5:
